@@ -221,7 +221,7 @@ class C12(Prop):
         ops = []
         for m in pool:
             ops.append("ENCODE " + m)
-        nh = 250 if ctx.tier == "quick" else 5000
+        nh = 600 if ctx.tier == "quick" else 5000
         for _ in range(nh):
             k = rng.choice([1, 2, 2, 3, 3, 4, 6])
             hist = []
@@ -670,7 +670,7 @@ class C10(Prop):
         g = get_gen(ctx)
         ops = []
         nums = g.msm_numbers()
-        per = 14 if ctx.tier == "quick" else 400
+        per = 40 if ctx.tier == "quick" else 400
         classes = [None, "sat0", "sat65", "badsig", "dupsat", "dupcell", "mismatch_extra_sat", "mismatch_extra_cell", "toomany", "empty_sats", "empty_cells"]
         for n in nums:
             for _ in range(per):
@@ -833,7 +833,7 @@ class C16(Prop):
         rng = ctx.rng
         g = get_gen(ctx)
         ops = []
-        n = 150 if ctx.tier == "quick" else 5000
+        n = 500 if ctx.tier == "quick" else 5000
         for num in (1059, 1065):
             if num not in g.layouts:
                 continue
@@ -961,7 +961,7 @@ class C17(Prop):
         rng = ctx.rng
         g = get_gen(ctx)
         ops = []
-        n = 300 if ctx.tier == "quick" else 20000
+        n = 1000 if ctx.tier == "quick" else 20000
         for _ in range(n):
             N = rng.choice([3, 7, 31, 255])
             ln = rng.choice([0, 1, N - 1, N, N + 1, N + 3, rng.randint(0, N + 5)])
@@ -1246,7 +1246,7 @@ class C02(Prop):
     def gen(self, ctx):
         rng = ctx.rng
         g = get_gen(ctx)
-        ops = decode_ops_hostile(ctx, 14 if ctx.tier == "quick" else 1500)
+        ops = decode_ops_hostile(ctx, 30 if ctx.tier == "quick" else 1500)
         ops += msm_hostile_frames(ctx)
         ops += bias_hostile_frames(ctx)
         # valid bodies, truncated and bit-flipped, re-framed
@@ -1348,7 +1348,7 @@ class C09(Prop):
         g = get_gen(ctx)
         rng = ctx.rng
         q = ctx.tier == "quick"
-        ops = message_ops(ctx, 3 if q else 200, 8 if q else 600, "ENCODE")
+        ops = message_ops(ctx, 8 if q else 200, 20 if q else 600, "ENCODE")
         ops += ["ENCODE VEmpty", "ENCODE VCorrupt"] + ["ENCODE VMsgNotSupported(T{i%d})" % n for n in (0, 5, 1001, 1074, 4095, 65535)]
         for n in g.msm_numbers():
             for c in ("toomany", "toomany", "dupcell", "badsig", "sat65", "mismatch_extra_sat"):
@@ -1427,9 +1427,9 @@ class C01(Prop):
         q = ctx.tier == "quick"
         rng = ctx.rng
         g = get_gen(ctx)
-        ops = message_ops(ctx, 6 if q else 300, 5 if q else 300, "ROUNDTRIP")
+        ops = message_ops(ctx, 14 if q else 300, 12 if q else 300, "ROUNDTRIP")
         for n in g.numbers:
-            for _ in range(5 if q else 300):
+            for _ in range(10 if q else 300):
                 L = rng.choice([8, 16, 40, 100, 300, rng.randint(2, 600)])
                 ops.append("REDECODE %s" % hx(frame_of_payload(n, rng, L, rng.choice(["rand", "rand", "zero", "ones"]))))
         # the first build made by a builder that already built (or failed to build) something else
